@@ -48,6 +48,12 @@ class n0list_(list):
                 if raise_exception:
                     raise caught_ex
                 return if_not_found
+            except RecursionError:
+                # every step of xpath is one more nested call of _find(): an xpath with more steps than the interpreter
+                # allows could not be resolved, that is a miss like any other one (the stack is already unwound here)
+                if raise_exception:
+                    raise IndexError(f"xpath '{xpath[:40]}...' ({len(xpath)} characters) is too deep for the interpreter") from None
+                return if_not_found
             if not not_found_xpath_list:
                 return cur_value
             else:
